@@ -612,8 +612,9 @@ STATIC = list(globals().get("STATIC", [])) + list(STEAL_STATIC)
 # ---- C02 units reused (added after seeded change C10-3 was missed): "a hinted task runs every phase on the hinted worker" needs every
 # ---- re-queue of a woken task to carry the worker it ran on: set_thread_state passes the caller's hint to schedule_thread, and the
 # ---- retry helper set_active_state re-issues the request with hint = thread(last worker).  Same templates, same contracts as C02.
-_c02 = {}
-exec(compile(open("/verif/specs/C02/spec.py").read(), "/verif/specs/C02/spec.py", "exec"), _c02)
+_c02 = {"UNITS": [], "VX_NO_REUSE": True}
+if not globals().get("VX_NO_REUSE"):     # reuse is never transitive: the other spec is loaded without ITS reuse blocks (no cycles)
+    exec(compile(open("/verif/specs/C02/spec.py").read(), "/verif/specs/C02/spec.py", "exec"), _c02)
 for _u in _c02["UNITS"]:
     # timed.suspend_until (added after seeded change C10-7 was missed): this_thread::suspend / yield_to hand a "next thread" of ANOTHER
     # scheduler to that thread's own scheduler (never to the caller's: it would run on a worker of the wrong pool)
@@ -621,8 +622,9 @@ for _u in _c02["UNITS"]:
         _u.name = "c02." + _u.name
         _u.template = "../C02/" + _u.template
         UNITS.append(_u)
-_c13 = {}
-exec(compile(open("/verif/specs/C13/spec.py").read(), "/verif/specs/C13/spec.py", "exec"), _c13)
+_c13 = {"UNITS": [], "VX_NO_REUSE": True}
+if not globals().get("VX_NO_REUSE"):     # reuse is never transitive: the other spec is loaded without ITS reuse blocks (no cycles)
+    exec(compile(open("/verif/specs/C13/spec.py").read(), "/verif/specs/C13/spec.py", "exec"), _c13)
 for _u in _c13["UNITS"]:
     if _u.name == "hlp.suspend":     # the untimed overload of the same function (same obligation: g_sch_ok)
         _u.name = "c13." + _u.name
